@@ -667,6 +667,8 @@ _SC = "algos/doe/scipy/scipy_doe.py"
 _PY = "algos/doe/pydoe/pydoe.py"
 _OT = "algos/doe/openturns/openturns.py"
 WITNESSES = [
+    {"name": "seeded-C14-12", "file": "algos/doe/openturns/openturns.py", "old": "\n    __DOC: Final[str] = \"http://openturns.github.io/openturns/latest/user_manual/\"\n\n    ALGORITHM_INFOS: ClassVar[dict[str, OpenTURNSAlgorithmDescription]] = {\n        __SOBOL: OpenTURNSAlgorithmDescription(\n            algorithm_name=__SOBOL,\n            description=\"Sobol sequence\",\n            internal_algorithm_name=__SOBOL,\n            website=f\"{__DOC}_generated/openturns.SobolSequence.html\",\n            Settings=OT_SOBOL_Settings,\n        ),\n        __RANDOM: OpenTURNSAlgorithmDescription(\n            algorithm_name=__RANDOM,\n            description=\"Random sampling\",\n            internal_algorithm_name=__RANDOM,\n            website=f\"{__DOC}_generated/openturns.Uniform.html\",\n            Settings=OT_RANDOM_Settings,\n        ),\n        __HASELGROVE: OpenTURNSAlgorithmDescription(\n            algorithm_name=__HASELGROVE,\n            description=\"Haselgrove sequence\",\n            internal_algorithm_name=__HASELGROVE,\n            website=f\"{__DOC}_generated/openturns.HaselgroveSequence.html\",\n            Settings=OT_HASELGROVE_Settings,\n        ),\n        __REVERSE_HALTON: OpenTURNSAlgorithmDescription(\n            algorithm_name=__REVERSE_HALTON,\n            description=\"Reverse Halton\",\n            internal_algorithm_name=__REVERSE_HALTON,\n            website=f\"{__DOC}_generated/openturns.ReverseHaltonSequence.html\",\n            Settings=OT_REVERSE_HALTON_Settings,\n        ),\n        __HALTON: OpenTURNSAlgorithmDescription(\n            algorithm_name=__HALTON,\n            description=\"Halton sequence\",\n            internal_algorithm_name=__HALTON,\n            website=f\"{__DOC}_generated/openturns.HaltonSequence.html\",\n            Settings=OT_HALTON_Settings,\n        ),\n        __FAURE: OpenTURNSAlgorithmDescription(\n            algorithm_name=__FAURE,\n            description=\"Faure sequence\",\n            internal_algorithm_name=__FAURE,\n            website=f\"{__DOC}_generated/openturns.FaureSequence.html\",\n            Settings=OT_FAURE_Settings,\n        ),\n        __MONTE_CARLO: OpenTURNSAlgorithmDescription(\n            algorithm_name=__MONTE_CARLO,\n            description=\"Monte Carlo sequence\",\n            internal_algorithm_name=__MONTE_CARLO,\n            website=f\"{__DOC}_generated/openturns.Uniform.html\",\n            Settings=OT_MONTE_CARLO_Settings,\n        ),\n        __FACTORIAL: OpenTURNSAlgorithmDescription(\n            algorithm_name=__FACTORIAL,\n            description=\"Factorial design\",\n            internal_algorithm_name=__FACTORIAL,\n            website=f\"{__DOC}_generated/openturns.Factorial.html\",\n            Settings=OT_FACTORIAL_Settings,\n        ),\n        __COMPOSITE: OpenTURNSAlgorithmDescription(\n            algorithm_name=__COMPOSITE,\n            description=\"Composite design\",\n            internal_algorithm_name=__COMPOSITE,\n            website=f\"{__DOC}_generated/openturns.Composite.html\",\n            Settings=OT_COMPOSITE_Settings,\n        ),\n        __AXIAL: OpenTURNSAlgorithmDescription(\n            algorithm_name=__AXIAL,\n            description=\"Axial design\",\n            internal_algorithm_name=__AXIAL,\n            website=f\"{__DOC}_generated/openturns.Axial.html\",\n            Settings=OT_AXIAL_Settings,\n        ),\n        __OPT_LHS: OpenTURNSAlgorithmDescription(\n            algorithm_name=__OPT_LHS,\n            description=\"Optimal Latin Hypercube Sampling\",\n            internal_algorithm_name=__OPT_LHS,\n            website=f\"{__DOC}_generated/openturns.SimulatedAnnealingLHS.html\",\n            Settings=OT_OPT_LHS_Settings,\n        ),\n        __LHS: OpenTURNSAlgorithmDescription(\n            algorithm_name=__LHS,\n            description=\"Latin Hypercube Sampling\",\n            internal_algorithm_name=__LHS,\n            website=f\"{__DOC}_generated/openturns.LHS.html\",\n            Settings=OT_LHS_Settings,\n        ),\n        __LHSC: OpenTURNSAlgorithmDescription(\n            algorithm_name=__LHSC,\n            description=\"Centered Latin Hypercube Sampling\",\n            internal_algorithm_name=__LHSC,\n            website=f\"{__DOC}_generated/openturns.LHS.html\",\n            Settings=OT_LHSC_Settings,\n        ),\n        __FULLFACT: OpenTURNSAlgorithmDescription(\n            algorithm_name=__FULLFACT,\n            description=\"Full factorial design\",\n            internal_algorithm_name=__FULLFACT,\n            website=f\"{__DOC}_generated/openturns.Box.html\",\n            Settings=OT_FULLFACT_Settings,\n        ),\n        __SOBOL_INDICES: OpenTURNSAlgorithmDescription(\n            algorithm_name=__SOBOL_INDICES,\n            description=\"DOE for Sobol indices\",\n            internal_algorithm_name=__SOBOL_INDICES,\n            website=f\"{__DOC}_generated/openturns.SobolIndicesAlgorithm.html\",\n            Settings=OT_SOBOL_INDICES_Settings,\n        ),\n    }\n\n    def _generate_unit_samples(\n        self,\n        design_space: DesignSpace,\n        n_samples: int = 0,\n        seed: int | None = None,\n        **settings: OptionType,\n    ) -> NumberArray:\n        \"\"\"\n        Args:\n            n_samples: The number of samples.\n                If 0, set from the options.\n            seed: The seed used for reproducibility reasons.\n                If ``None``, use :attr:`.seed`.\n        \"\"\"  # noqa: D205, D212, D415\n        openturns.RandomGenerator.SetSeed(self._seeder.get_seed(seed))\n        doe_algo = self.__NAMES_TO_CLASSES[self._algo_name]()\n", "new": "\n    __RANDOM_ALGO_NAMES: Final[frozenset[str]] = frozenset({\n        __LHS,\n        __MONTE_CARLO,\n        __OPT_LHS,\n        __RANDOM,\n        __SOBOL_INDICES,\n    })\n    \"\"\"The names of the algorithms using the OpenTURNS random generator.\n\n    The other ones are deterministic (low-discrepancy sequences and stratified DOEs)\n    and do not need to reset the global state of the OpenTURNS random generator.\n    \"\"\"\n\n    __DOC: Final[str] = \"http://openturns.github.io/openturns/latest/user_manual/\"\n\n    ALGORITHM_INFOS: ClassVar[dict[str, OpenTURNSAlgorithmDescription]] = {\n        __SOBOL: OpenTURNSAlgorithmDescription(\n            algorithm_name=__SOBOL,\n            description=\"Sobol sequence\",\n            internal_algorithm_name=__SOBOL,\n            website=f\"{__DOC}_generated/openturns.SobolSequence.html\",\n            Settings=OT_SOBOL_Settings,\n        ),\n        __RANDOM: OpenTURNSAlgorithmDescription(\n            algorithm_name=__RANDOM,\n            description=\"Random sampling\",\n            internal_algorithm_name=__RANDOM,\n            website=f\"{__DOC}_generated/openturns.Uniform.html\",\n            Settings=OT_RANDOM_Settings,\n        ),\n        __HASELGROVE: OpenTURNSAlgorithmDescription(\n            algorithm_name=__HASELGROVE,\n            description=\"Haselgrove sequence\",\n            internal_algorithm_name=__HASELGROVE,\n            website=f\"{__DOC}_generated/openturns.HaselgroveSequence.html\",\n            Settings=OT_HASELGROVE_Settings,\n        ),\n        __REVERSE_HALTON: OpenTURNSAlgorithmDescription(\n            algorithm_name=__REVERSE_HALTON,\n            description=\"Reverse Halton\",\n            internal_algorithm_name=__REVERSE_HALTON,\n            website=f\"{__DOC}_generated/openturns.ReverseHaltonSequence.html\",\n            Settings=OT_REVERSE_HALTON_Settings,\n        ),\n        __HALTON: OpenTURNSAlgorithmDescription(\n            algorithm_name=__HALTON,\n            description=\"Halton sequence\",\n            internal_algorithm_name=__HALTON,\n            website=f\"{__DOC}_generated/openturns.HaltonSequence.html\",\n            Settings=OT_HALTON_Settings,\n        ),\n        __FAURE: OpenTURNSAlgorithmDescription(\n            algorithm_name=__FAURE,\n            description=\"Faure sequence\",\n            internal_algorithm_name=__FAURE,\n            website=f\"{__DOC}_generated/openturns.FaureSequence.html\",\n            Settings=OT_FAURE_Settings,\n        ),\n        __MONTE_CARLO: OpenTURNSAlgorithmDescription(\n            algorithm_name=__MONTE_CARLO,\n            description=\"Monte Carlo sequence\",\n            internal_algorithm_name=__MONTE_CARLO,\n            website=f\"{__DOC}_generated/openturns.Uniform.html\",\n            Settings=OT_MONTE_CARLO_Settings,\n        ),\n        __FACTORIAL: OpenTURNSAlgorithmDescription(\n            algorithm_name=__FACTORIAL,\n            description=\"Factorial design\",\n            internal_algorithm_name=__FACTORIAL,\n            website=f\"{__DOC}_generated/openturns.Factorial.html\",\n            Settings=OT_FACTORIAL_Settings,\n        ),\n        __COMPOSITE: OpenTURNSAlgorithmDescription(\n            algorithm_name=__COMPOSITE,\n            description=\"Composite design\",\n            internal_algorithm_name=__COMPOSITE,\n            website=f\"{__DOC}_generated/openturns.Composite.html\",\n            Settings=OT_COMPOSITE_Settings,\n        ),\n        __AXIAL: OpenTURNSAlgorithmDescription(\n            algorithm_name=__AXIAL,\n            description=\"Axial design\",\n            internal_algorithm_name=__AXIAL,\n            website=f\"{__DOC}_generated/openturns.Axial.html\",\n            Settings=OT_AXIAL_Settings,\n        ),\n        __OPT_LHS: OpenTURNSAlgorithmDescription(\n            algorithm_name=__OPT_LHS,\n            description=\"Optimal Latin Hypercube Sampling\",\n            internal_algorithm_name=__OPT_LHS,\n            website=f\"{__DOC}_generated/openturns.SimulatedAnnealingLHS.html\",\n            Settings=OT_OPT_LHS_Settings,\n        ),\n        __LHS: OpenTURNSAlgorithmDescription(\n            algorithm_name=__LHS,\n            description=\"Latin Hypercube Sampling\",\n            internal_algorithm_name=__LHS,\n            website=f\"{__DOC}_generated/openturns.LHS.html\",\n            Settings=OT_LHS_Settings,\n        ),\n        __LHSC: OpenTURNSAlgorithmDescription(\n            algorithm_name=__LHSC,\n            description=\"Centered Latin Hypercube Sampling\",\n            internal_algorithm_name=__LHSC,\n            website=f\"{__DOC}_generated/openturns.LHS.html\",\n            Settings=OT_LHSC_Settings,\n        ),\n        __FULLFACT: OpenTURNSAlgorithmDescription(\n            algorithm_name=__FULLFACT,\n            description=\"Full factorial design\",\n            internal_algorithm_name=__FULLFACT,\n            website=f\"{__DOC}_generated/openturns.Box.html\",\n            Settings=OT_FULLFACT_Settings,\n        ),\n        __SOBOL_INDICES: OpenTURNSAlgorithmDescription(\n            algorithm_name=__SOBOL_INDICES,\n            description=\"DOE for Sobol indices\",\n            internal_algorithm_name=__SOBOL_INDICES,\n            website=f\"{__DOC}_generated/openturns.SobolIndicesAlgorithm.html\",\n            Settings=OT_SOBOL_INDICES_Settings,\n        ),\n    }\n\n    def _generate_unit_samples(\n        self,\n        design_space: DesignSpace,\n        n_samples: int = 0,\n        seed: int | None = None,\n        **settings: OptionType,\n    ) -> NumberArray:\n        \"\"\"\n        Args:\n            n_samples: The number of samples.\n                If 0, set from the options.\n            seed: The seed used for reproducibility reasons.\n                If ``None``, use :attr:`.seed`.\n        \"\"\"  # noqa: D205, D212, D415\n        seed = self._seeder.get_seed(seed)\n        if self._algo_name in self.__RANDOM_ALGO_NAMES:\n            openturns.RandomGenerator.SetSeed(seed)\n\n        doe_algo = self.__NAMES_TO_CLASSES[self._algo_name]()\n", "expect": "14.1", "note": "OpenTURNS DOE library only reseeds the OT random generator for a list of 'random"},
+    {"name": "seeded-C14-11", "file": "algos/parameter_space.py", "old": "        data_sizes = self.variable_sizes\n        x_u_geom = super().unnormalize_vect(\n            x_vect, minus_lb=minus_lb, no_check=no_check\n        )\n        x_u = self.evaluate_cdf(\n            split_array_to_dict_of_arrays(x_vect, data_sizes, data_names), inverse=True\n        )\n        x_u_geom = split_array_to_dict_of_arrays(x_u_geom, data_sizes, data_names)\n        missing_names = [name for name in self if name not in x_u]\n        for name in missing_names:\n            x_u[name] = x_u_geom[name]\n\n        return concatenate_dict_of_arrays_to_array(x_u, data_names)\n\n", "new": "        data_sizes = self.variable_sizes\n        x_u = self.evaluate_cdf(\n            split_array_to_dict_of_arrays(x_vect, data_sizes, data_names), inverse=True\n        )\n        deterministic_names = self.deterministic_variables\n        if deterministic_names:\n            # The geometric unnormalization is only required\n            # for the deterministic variables.\n            x_u_geom = split_array_to_dict_of_arrays(\n                super().unnormalize_vect(x_vect, minus_lb=minus_lb, no_check=no_check),\n                data_sizes,\n                data_names,\n            )\n            x_u.update({name: x_u_geom[name] for name in deterministic_names})\n\n        return concatenate_dict_of_arrays_to_array(x_u, x_u.keys())\n\n", "expect": "14.11", "note": "ParameterSpace.untransform_vect returns the uncertain variables first, then the "},
     {"name": "seeded-C14-10", "file": "algos/doe/openturns/_algos/ot_full_factorial_doe.py", "old": "from numpy import full\nfrom openturns import Box\n\nfrom gemseo.algos.doe.base_full_factorial_doe import BaseFullFactorialDOE\n\nif TYPE_CHECKING:\n    from collections.abc import Iterable\n\n    from gemseo.typing import RealArray\n\n\nclass OTFullFactorialDOE(BaseFullFactorialDOE):\n    \"\"\"The full-factorial DOE.\n\n    .. note:: This class is a singleton.\n    \"\"\"\n\n    def _generate_fullfact_from_levels(self, levels: Iterable[int]) -> RealArray:\n        # This method relies on openturns.Box.\n        # This latter assumes that the levels provided correspond to the intermediate\n        # levels between lower and upper bounds, while GEMSEO includes these bounds\n        # in the definition of the levels, so we subtract 2 in order to get\n        # only intermediate levels.\n        levels = [level - 2 for level in levels]\n\n        # If any level is negative, we take them out, generate the DOE,\n        # then append the DOE with 0.5 for the missing levels.\n        ot_indices = []\n        ot_levels = []\n        for ot_index, ot_level in enumerate(levels):\n            if ot_level >= 0:\n                ot_levels.append(ot_level)\n                ot_indices.append(ot_index)\n\n        if not ot_levels:\n            return full([1, len(levels)], 0.5)\n\n        ot_doe = array(Box(ot_levels).generate())\n\n        if len(ot_levels) == len(levels):\n            return ot_doe\n\n        doe = full([ot_doe.shape[0], len(levels)], 0.5)\n        doe[:, ot_indices] = ot_doe\n        return doe\n", "new": "from numpy import full\nfrom numpy import hstack\nfrom openturns import Box\n\nfrom gemseo.algos.doe.base_full_factorial_doe import BaseFullFactorialDOE\n\nif TYPE_CHECKING:\n    from collections.abc import Iterable\n\n    from gemseo.typing import RealArray\n\n\nclass OTFullFactorialDOE(BaseFullFactorialDOE):\n    \"\"\"The full-factorial DOE.\n\n    .. note:: This class is a singleton.\n    \"\"\"\n\n    def _generate_fullfact_from_levels(self, levels: Iterable[int]) -> RealArray:\n        # This method relies on openturns.Box.\n        # This latter assumes that the levels provided correspond to the intermediate\n        # levels between lower and upper bounds, while GEMSEO includes these bounds\n        # in the definition of the levels, so we subtract 2 in order to get\n        # only intermediate levels.\n        levels = [level - 2 for level in levels]\n\n        # If any level is negative, we take them out, generate the DOE,\n        # then append the DOE with 0.5 for the missing levels.\n        ot_levels = [ot_level for ot_level in levels if ot_level >= 0]\n        if not ot_levels:\n            return full([1, len(levels)], 0.5)\n\n        ot_doe = array(Box(ot_levels).generate())\n        n_missing_levels = len(levels) - len(ot_levels)\n        if not n_missing_levels:\n            return ot_doe\n\n        return hstack((ot_doe, full([ot_doe.shape[0], n_missing_levels], 0.5)))\n", "expect": "14.10", "note": "OT_FULLFACT appends the single-level (0.5) columns at the end instead of putting"},
     {"name": "seeded-C14-9", "file": "algos/design_space.py", "old": "        if minus_lb and not self.__no_integer:\n            self.round_vect(out, copy=False)\n            if recast_to_int:\n                out = out.astype(self.__INT_DTYPE)\n\n", "new": "        if minus_lb and not self.__no_integer:\n            if recast_to_int:\n                out = out.astype(self.__INT_DTYPE)\n            else:\n                self.round_vect(out, copy=False)\n\n", "expect": "14.9", "note": "unnormalize_vect casts to int instead of rounding when the design space has an i"},
     {"name": "sobol-sub-sample-size-rounded", "file": _OTS, "old": "            sub_sample_size = int(n_samples / (dimension + 2))", "new": "            sub_sample_size = round(n_samples / (dimension + 2))", "expect": "14.6"},
